@@ -1289,3 +1289,18 @@ val t_run :
   nat -> nat -> z -> tstate -> token list -> (token list * tstate) option
 
 val tokenize : bytes -> (token list * tstate) option
+
+type stoken = { st_value : bytes; st_depth : z; st_index : z;
+                st_iskey : bool; st_constrained : bool }
+
+val mk_scalar : bytes -> z -> z -> bool -> stoken
+
+val mk_punct : z -> stoken
+
+val consumed : bytes -> bytes -> bytes
+
+val g_tokens : nat -> bytes -> z -> z -> bool -> (stoken list * bytes) option
+
+val spec_tokens : bytes -> stoken list option
+
+val frame : nat -> bytes -> bytes list * bool
